@@ -108,9 +108,60 @@ def scenario(name):
     return None, None
 
 
+FRESH_SCRIPT = r'''
+import os, sys, json
+os.environ.pop('PYTEST_CURRENT_TEST', None)
+import warnings; warnings.filterwarnings('ignore')
+import numpy as np
+from jesse import research
+from jesse.strategies import Strategy
+TS0 = 1609459200000
+
+class S(Strategy):
+    def should_long(self): return False
+    def should_short(self): return False
+    def should_cancel_entry(self): return True
+    def go_long(self): pass
+    def go_short(self): pass
+
+def call():
+    rows = np.array([[TS0 + i * 60000, 100, 100, 100, 100, 10] for i in range(30)], dtype=float)
+    cfg = {'starting_balance': 10000, 'fee': 0, 'type': 'futures', 'futures_leverage': 2, 'futures_leverage_mode': 'cross',
+           'exchange': 'Sandbox', 'warm_up_candles': 0}
+    return research.backtest(cfg, [{'exchange': 'Sandbox', 'strategy': S, 'symbol': 'BTC-USDT', 'timeframe': '1m'}], [],
+                             {'Sandbox-BTC-USDT': {'exchange': 'Sandbox', 'symbol': 'BTC-USDT', 'candles': rows}})
+r1 = call()
+first = dict(r1['metrics'])
+r1['metrics']['label'] = 'edited by the first caller'
+r2 = call()
+print('RESULT ' + json.dumps({'same_object': r1['metrics'] is r2['metrics'], 'first': first, 'second': r2['metrics']}, default=str))
+'''
+
+
+def result_fresh():
+    env = dict(os.environ)
+    env.pop('PYTEST_CURRENT_TEST', None)
+    env['PYTHONPATH'] = os.environ.get('PYVC_REPO', '/repo')
+    p = subprocess.run([sys.executable, '-W', 'ignore', '-c', FRESH_SCRIPT], capture_output=True, text=True, env=env, timeout=600)
+    for line in p.stdout.splitlines():
+        if line.startswith('RESULT '):
+            r = json.loads(line[7:])
+            if r['same_object'] or r['first'] != r['second']:
+                return (f'two equal calls (no trade closed): the second result is {r["second"]} after the first caller edited the dict it was '
+                        f'handed ({r["first"]} at first); same object: {r["same_object"]}'), None
+            return None, None
+    return None, p.stderr[-1200:]
+
+
 def replay(pl):
     ob = pl['obligation']
-    order = ['memo', 'drivers', 'vars', 'spot-then-futures']
+    if ob.startswith('result'):
+        d, err = result_fresh()
+        if err:
+            return {'confirmed': False, 'error': err}
+        return {'confirmed': bool(d), 'detail': d or 'equal calls return equal, unshared results'}
+    # the recorded finding (exchange-driver table frozen at the first session) is replayed by replay_finding only
+    order = ['memo', 'vars', 'spot-then-futures']
     if ob.startswith('drivers'):
         order = ['drivers']
     elif ob.startswith('store-reset'):
